@@ -128,6 +128,7 @@ pub fn dump<'tcx>(tcx: TyCtxt<'tcx>) -> (J, J, J, J, J, J) {
           "reachable": J::Bool(eff.is_reachable(ldid)),
           "exported": J::Bool(eff.is_exported(ldid)),
           "async": J::Bool(tcx.asyncness(did).is_async()),
+          "unsafe": J::Bool(sig.safety().is_unsafe()),
           "container": J::s(container),
           "has_body": J::Bool(has_body),
           "sig": J::s(crate::names::ty_str(tcx, ty::Ty::new_fn_ptr(tcx, sig))),
